@@ -15,7 +15,8 @@
     * `Proofs/ScalingRefine.lean`: `iterFloor_limbs`, `iterRound_limbs` (the coefficient-domain iteration).
 
   The single-division variants use `INTTLazy`, which for `N < 16` returns values in `[1, 2q_ℓ]` (`0 ↦ q_ℓ`):
-  `divFloorNTT_small_ring_counterexample` shows that the hypothesis `4 ≤ K` (`N ≥ 16`) is forced.
+  `4 ≤ K` (`N ≥ 16`) is a hypothesis of the proof technique (`nttCoreLazy_big`), no longer forced by the code
+  since repair C02-4 (`divFloorNTT_small_ring_repaired`).
 -/
 import Lattigo.Proofs.NTTRangeBig
 import Lattigo.Proofs.NTTTables
@@ -190,23 +191,24 @@ theorem divRoundNTT_row (Ti : Tables) (K : ℕ) (hTi : Valid Ti K) (hK : 4 ≤ K
 section
 variable (T : Tabs) (qs : List ℕ) (level K : ℕ)
 
-/-- the last row in the coefficient domain: for `N ≥ 16`, `INTTLazy` returns the REDUCED residues -/
-theorem lastRow_intt (hC : Chain qs) (hK : 4 ≤ K) (hl : level < qs.length)
+/-- the last row in the coefficient domain: the reducing `INTT` (repair C02-4 of /repo; before it the code
+used `INTTLazy`, reduced only for `N ≥ 16`) returns the REDUCED residues, for every ring degree -/
+theorem lastRow_intt (hC : Chain qs) (hl : level < qs.length)
     (hT : ∀ i, i ≤ level → Valid (tab T i) K ∧ (tab T i).q = modulus qs i)
     (p0 : Rows) (X : List ℕ) (hX : X.length = 2 ^ K)
     (hrows : ∀ i, i ≤ level → row p0 i = nttStd (tab T i) (X.map (· % modulus qs i))) :
-    inttStdLazy (tab T level) (row p0 level) = X.map (· % modulus qs level) := by
+    inttStd (tab T level) (row p0 level) = X.map (· % modulus qs level) := by
   obtain ⟨hTl, hql⟩ := hT level (Nat.le_refl _)
   have hp := (hC.prime _ (modulus_mem qs level hl)).pos
-  rw [hrows level (Nat.le_refl _), inttStdLazy_eq_inttStd _ (not_lt_unrollMin hTl hK)]
+  rw [hrows level (Nat.le_refl _)]
   exact inttStd_nttStd hTl _ (by rw [List.length_map, hX, hTl.n_eq]) (by
     intro x hx; rw [List.mem_map] at hx; obtain ⟨y, _, rfl⟩ := hx
     rw [hql]; exact Nat.mod_lt _ hp)
 
 /-- **`DivFloorByLastModulusNTT`, limb level = NTT of the integer quotient** (`N = 2^K ≥ 16`).  If row `i` of
 `p0` is the (bit-exact) forward NTT of the residues `X mod q_i`, `i ≤ level`, then row `i < level` of the result
-is, limb for limb, the forward NTT of `⌊x / q_level⌋ mod q_i`.  `4 ≤ K` is forced:
-`divFloorNTT_small_ring_counterexample`. -/
+is, limb for limb, the forward NTT of `⌊x / q_level⌋ mod q_i`.  `4 ≤ K` comes from
+`nttCoreLazy_big` (see `divFloorNTT_small_ring_repaired`). -/
 theorem divFloorNTT_limbs (hC : Chain qs) (hK : 4 ≤ K) (hl : level < qs.length)
     (hT : ∀ i, i ≤ level → Valid (tab T i) K ∧ (tab T i).q = modulus qs i)
     (p0 : Rows) (X : List ℕ) (hX : X.length = 2 ^ K)
@@ -215,7 +217,7 @@ theorem divFloorNTT_limbs (hC : Chain qs) (hK : 4 ≤ K) (hl : level < qs.length
       nttStd (tab T i) (X.map fun x => (x / modulus qs level) % modulus qs i) := by
   unfold divFloorNTT
   simp only []
-  rw [lastRow_intt T qs level K hC hK hl hT p0 X hX hrows]
+  rw [lastRow_intt T qs level K hC hl hT p0 X hX hrows]
   apply List.map_congr_left
   intro i hi
   have hi' : i < level := List.mem_range.mp hi
@@ -237,7 +239,7 @@ theorem divRoundNTT_limbs (hC : Chain qs) (hK : 4 ≤ K) (hl : level < qs.length
         (X.map fun x => ((x + half (modulus qs level)) / modulus qs level) % modulus qs i) := by
   unfold divRoundNTT
   simp only []
-  rw [lastRow_intt T qs level K hC hK hl hT p0 X hX hrows]
+  rw [lastRow_intt T qs level K hC hl hT p0 X hX hrows]
   apply List.map_congr_left
   intro i hi
   have hi' : i < level := List.mem_range.mp hi
@@ -381,7 +383,7 @@ theorem divRoundManyNTT_coeffs (nb : ℕ) (hC : Chain qs) (hK : nb = 1 → 4 ≤
 
 end
 
-/-! ## `4 ≤ K` is forced: the small-ring counterexample -/
+/-! ## the small ring (`N = 8`) after repair C02-4 -/
 
 theorem chain_97_193 : Chain [97, 193] :=
   ⟨by intro q hq; simp at hq; rcases hq with rfl | rfl <;> norm_num,
@@ -413,14 +415,15 @@ theorem tabs16_ok : ∀ i, i ≤ 1 → Valid (tab (mkTabs 16 [97, 193] [5, 5]) i
   | 1, _ => ⟨valid16_193, rfl⟩
   | i + 2, h => absurd h (by omega)
 
-/-- **The hypothesis `4 ≤ K` (`N ≥ 16`) of `divFloorNTT_limbs` is forced.**  For `N = 8` the Go
-`INTTStandardLazy` (ring/ntt.go:197-206) multiplies by `N⁻¹` with `MRedLazy` (values in `[1, 2q]`, in
-particular `0 ↦ q`); for `N ≥ 16` with `mulscalarmontgomeryvec` = `MRed` (reduced).  The lazy value `q_ℓ`
-(instead of `0`) is then moved to the other moduli and the result is `⌊x/q_ℓ⌋ − 1`.
-Witness: `N = 8` (`K = 3`), `qs = [97, 193]`, valid tables, level 1, the ZERO polynomial in the NTT domain:
-every other hypothesis of `divFloorNTT_limbs` holds, but the result is the NTT of the constant `96 = −1 mod 97`
-in every coefficient, not of `0 = ⌊0/193⌋`. -/
-theorem divFloorNTT_small_ring_counterexample :
+/-- **The small ring after repair C02-4.**  Before the repair `DivFloorByLastModulusNTT` fed the LAZY last row
+(`INTTStandardLazy`, ring/ntt.go: `MRedLazy` for `N < 16`, values in `[1, 2q]`, `0 ↦ q`) to the other moduli and
+returned `⌊x/q_ℓ⌋ − 1` (this very witness gave the constant `96 = −1 mod 97`; reproduced on /repo, and on the
+conjugate-invariant ring for every `N`).  With the reducing `INTT` the witness — `N = 8`, `qs = [97, 193]`,
+level 1, the ZERO polynomial in the NTT domain, all hypotheses of `divFloorNTT_limbs` except `4 ≤ K` — gives
+the zero polynomial.  (`4 ≤ K` is no longer FORCED; it remains a hypothesis of the limb theorems only because
+the no-wrap theorem `nttCoreLazy_big` for `NTTLazy` on residues of a larger prime is proved for the unrolled
+schedule `N ≥ 16`; the `N = 8` behaviour is covered by the correspondence ties and probes.) -/
+theorem divFloorNTT_small_ring_repaired :
     let T8 := mkTabs 8 [97, 193] [5, 5]
     let qs := [97, 193]
     let X := List.replicate 8 0
@@ -429,8 +432,8 @@ theorem divFloorNTT_small_ring_counterexample :
     ∧ (∀ i, i ≤ 1 → Valid (tab T8 i) 3 ∧ (tab T8 i).q = modulus qs i)
     ∧ X.length = 2 ^ 3
     ∧ (∀ i, i ≤ 1 → row p0 i = nttStd (tab T8 i) (X.map (· % modulus qs i)))
-    ∧ (divFloorNTT T8 qs 1 p0).map (inttStd (tab T8 0)) = [List.replicate 8 96]
-    ∧ divFloorNTT T8 qs 1 p0 ≠ (List.range 1).map fun i =>
+    ∧ (divFloorNTT T8 qs 1 p0).map (inttStd (tab T8 0)) = [List.replicate 8 0]
+    ∧ divFloorNTT T8 qs 1 p0 = (List.range 1).map fun i =>
         nttStd (tab T8 i) (X.map fun x => (x / modulus qs 1) % modulus qs i) := by
   refine ⟨chain_97_193, by decide, tabs8_ok, rfl, ?_, by decide +kernel, by decide +kernel⟩
   intro i hi
@@ -484,9 +487,7 @@ example : (divFloorManyNTT (mkTabs 8 [97, 193] [5, 5]) [97, 193] 1 1
       (fun p => p.map (inttStd (tab (mkTabs 8 [97, 193] [5, 5]) 0)))
     = some [List.replicate 8 0] := by decide +kernel
 
--- test: at `N = 8` the ROUNDING variant is right on the zero polynomial (the `AddScalar`'s conditional
--- subtraction absorbs the lazy value `q_ℓ`); `4 ≤ K` in `divRoundNTT_limbs` is what the proof uses (the lazy
--- `INTTLazy` output may be `v + q_ℓ`), no small-ring counterexample is known for it.
+-- test: at `N = 8` the ROUNDING variant on the zero polynomial
 example : (divRoundNTT (mkTabs 8 [97, 193] [5, 5]) [97, 193] 1
       [nttStd (tab (mkTabs 8 [97, 193] [5, 5]) 0) (List.replicate 8 0),
        nttStd (tab (mkTabs 8 [97, 193] [5, 5]) 1) (List.replicate 8 0)]).map
@@ -504,6 +505,6 @@ example : (divRoundNTT (mkTabs 8 [97, 193] [5, 5]) [97, 193] 1
 #print axioms divRoundNTT_coeffs
 #print axioms divFloorManyNTT_coeffs
 #print axioms divRoundManyNTT_coeffs
-#print axioms divFloorNTT_small_ring_counterexample
+#print axioms divFloorNTT_small_ring_repaired
 
 end Lattigo.Scaling
